@@ -59,7 +59,7 @@ CHECKS = {
          "Comment injection at every between-items and end-of-item position of Block/Defs/Struct/Interface/case bodies/File of real and generated programs (22 text shapes); file-level scenarios: headers x package comments (incl. empty entries) x canonical paths; raw comment forms, comments leading their statement with Line(), Commentf operands changed after the call; code tokens compared on the formatted and on the NoFormat rendering.",
          TB + " Text containment is judged on the NoFormat rendering (gofmt rewrites doc comments itself).", "5 C15"),
  "C18": ("exploration", "runtime monitor: import spec and qualifier of rendered files vs. the package clause parsed from GOROOT/src/<path>; the gennames tool of the tree is run and its table checked the same way",
-         "Every importable std package directory (297 on this toolchain) alone, with prefix, under ImportAlias(last element) and ImportAlias(arbitrary), after a same-named foreign package; every ordered pair/group sharing a declared name or last path element; all at once in two orders; gennames run offline, every table entry checked, and the cases repeated with ImportNames(table). Enumerated completely in both tiers (2,298 cases), each case produced up to seven ways (fresh, second render, with an unreferenced cgo preamble, after RenderWithFile, File named like the package, alias after a name hint, alias twice).",
+         "Every importable std package directory (297 on this toolchain) alone, with prefix, under ImportAlias(last element) and ImportAlias(arbitrary), after a same-named foreign package; every ordered pair/group sharing a declared name or last path element; all at once in two orders; gennames run offline, every table entry checked, and the cases repeated with ImportNames(table). Enumerated completely in both tiers (2,342 cases), each case produced up to seven ways (fresh, second render, with an unreferenced cgo preamble, after RenderWithFile, File named like the package, alias after a name hint, alias twice).",
          TB + " GOROOT/src of the installed toolchain is the ground truth.", "5 C18"),
  "C02": ("exploration", "runtime monitor: twin builds (formatted vs NoFormat) compared through go/format, go/parser on every output, per-case recover; random compositions over the API table by reflection, and damaged real programs",
          "Random compositions over every construct (valid and nonsensical) under random File settings, one third grammar-biased; formatted output must equal gofmt(raw twin), errors iff gofmt rejects, nothing written on error, no panic; fragments through Statement/Group Render/RenderWithFile/GoString; recovered contract panics before judged renders; recovered contract panics and renders whose writer fails before judged renders; NoFormat flipped between renders of the same Files; real programs with one damaged list.",
